@@ -486,6 +486,7 @@ func (prop) Generate(r *prng.Rand, phase string) any {
 	case 1:
 		s.Read.ErrAt = r.Intn(approx)
 		s.Read.ErrWithData = r.Chance(0.5)
+		s.Read.ErrKind = simio.ErrKinds[r.Intn(len(simio.ErrKinds))]
 	case 2:
 		s.Read.TruncAt = r.Intn(approx)
 	case 3:
